@@ -9,7 +9,7 @@ from .common import VERIF, finish
 def run(ctx):
     q = ctx.quick()
     b = shm.shmsim(ctx)
-    cov, viol, samples = shm.run_sched(ctx, b, "C02", 60000 if q else 3000000)
+    cov, viol, samples = shm.run_sched(ctx, b, "C02", 60000 if q else 1500000)
     ctx.log("sched: %d scenarios, %d distinct schedules, %d overlapped calls" % (cov["scenarios"], cov["distinct_schedules"], cov["overlapped_calls"]))
     magg, mviol, msamples, lost = shm.run_miri(ctx, "c02", 48 if q else 1024, 20)
     ctx.log("miri: %s, lost %d" % (magg, lost))
